@@ -132,3 +132,24 @@ Theorem C17_source_partition4_contract : forall wT seq shift, QWTP.width_ok wT -
     forall d, filter (fun x => (x / 2 ^ shift) mod 4 =? d) out = filter (fun x => (x / 2 ^ shift) mod 4 =? d) seq.
 Proof. exact g_stable_partition_of_4_contract. Qed.
 Print Assumptions C17_source_partition4_contract.
+
+(* stable_partition_of_2 regenerated (two local vectors, copied back) *)
+From QwtModel Require Import FnsWtNewOk.
+From Coq Require Import Permutation Sorted.
+Theorem C17_source_partition2_eq : forall wT seq shift, len seq < 2 ^ 64 ->
+  g_stable_partition_of_2 wT seq shift = stable_partition_of_2 wT seq shift.
+Proof. exact g_stable_partition_of_2_ok. Qed.
+Print Assumptions C17_source_partition2_eq.
+Theorem C17_source_partition2 : forall w seq shift,
+  BinWTP.width_ok w -> shift < w -> Forall (fun x => x < 2 ^ w) seq -> len seq < 2 ^ 64 ->
+  g_stable_partition_of_2 w seq shift =
+  Val (filter (fun x => (x / 2 ^ shift) mod 2 =? 0) seq ++ filter (fun x => (x / 2 ^ shift) mod 2 =? 1) seq).
+Proof. exact g_stable_partition_of_2_correct. Qed.
+Print Assumptions C17_source_partition2.
+Theorem C17_source_partition2_contract : forall w seq shift,
+  BinWTP.width_ok w -> shift < w -> Forall (fun x => x < 2 ^ w) seq -> len seq < 2 ^ 64 ->
+  exists out, g_stable_partition_of_2 w seq shift = Val out /\ Permutation seq out /\
+    StronglySorted (fun x y => (x / 2 ^ shift) mod 2 <= (y / 2 ^ shift) mod 2) out /\
+    forall d, filter (fun x => (x / 2 ^ shift) mod 2 =? d) out = filter (fun x => (x / 2 ^ shift) mod 2 =? d) seq.
+Proof. exact g_stable_partition_of_2_contract. Qed.
+Print Assumptions C17_source_partition2_contract.
